@@ -128,7 +128,12 @@ func (p *Point) scalarMulGeneric(api frontend.API, p1 *Point, scalar frontend.Va
 // scal: scalar as a SNARK constraint
 // Standard left to right double and add
 func (p *Point) scalarMul(api frontend.API, p1 *Point, scalar frontend.Variable, curve *CurveParams, endo ...*EndoParams) *Point {
-	return p.scalarMulFakeGLV(api, p1, scalar, curve)
+	// scalarMulFakeGLV is not sound over the native field: the relation
+	// s1 + s2*s == k*Order is only checked modulo the native modulus with an
+	// unconstrained quotient k, so any (s1, s2) -- in particular (0, 0) --
+	// passes and the hinted result point is not bound to [s]p1. It also makes
+	// the solver panic on s == 0 (division by zero in the halfGCD hint).
+	return p.scalarMulGeneric(api, p1, scalar, curve)
 }
 
 // doubleBaseScalarMul computes s1*P1+s2*P2
